@@ -328,6 +328,10 @@ def check(pid, conf, tier, seed, workdir, replay, t0):
     gen_ok, gen_log = regen()
     if not gen_ok:
         notes.append("translator failed: " + gen_log[-1500:])
+    elif "translator" in gen_log and "failed" in gen_log:
+        # a failed translator leaves a generated file that does not type-check: the properties that depend on it (and only
+        # they) lose their proofs and their judge below
+        notes.append("a model fragment could not be regenerated from the source (properties that do not depend on it are unaffected): " + gen_log[-1500:])
 
     # -- theorems
     proof_ok, coq_log, n_print, closed, axioms = build_props(pid, conf.get("coq_timeout", 1500), conf.get("judge"))
